@@ -45,6 +45,20 @@ theorem di_balance (tol w : Rat) (hw : 0 ≤ w) (htw : tol ≤ w) (hot cold : Li
   · rw [hqc]; rw [hdb] at hbot; linarith
   · rw [hqr, hqc]; linarith
 
+/-- **The utility duties of a record differ by the same net amount.**  Whenever the allocation closes within
+    `tol` on both sides (C03: `covering_ladder_closes_hot` / `_cold`) and the record closes the balance, the
+    listed hot and cold utility duties differ from `ΣQ_cold − ΣQ_hot` by at most `tol`; with exact closure
+    they differ by exactly that amount. -/
+theorem utility_net_of_closure (tol : Rat) (t : Targets) (hu cu : List Rat) (totC totH : Rat)
+    (hbal : t.qh - t.qc = totC - totH)
+    (hh : t.qh - tol ≤ hu.sum ∧ hu.sum ≤ t.qh) (hc : t.qc - tol ≤ cu.sum ∧ cu.sum ≤ t.qc) :
+    rabs ((hu.sum - cu.sum) - (totC - totH)) ≤ tol ∧
+    (hu.sum = t.qh → cu.sum = t.qc → hu.sum - cu.sum = totC - totH) := by
+  constructor
+  · unfold rabs
+    split_ifs <;> linarith [hh.1, hh.2, hc.1, hc.2]
+  · intro e1 e2; rw [e1, e2]; exact hbal
+
 /-- **Total-process record**: the sum of records that each close the balance closes the balance
     of the summed stream duties. -/
 theorem tz_balance (ts : List Targets) (cs hs : List Rat) (hlen1 : cs.length = ts.length) (hlen2 : hs.length = ts.length)
